@@ -173,6 +173,19 @@ def check_C13(chk, tier, seed):
         if not (got == "refused" or (want == "tls" and got == "tls")):
             chk.violation(f"after its first connection attempt was cut off, the client went on against the settings: expected refused{' or tls' if want == 'tls' else ''}, observed {got}",
                           dict(case=c, impl=short(im), expected=want))
+    # an endpoint that chooses its certificate by the name the client asks for (SNI; `openssl s_server` with a default certificate
+    # for another name): the client was told "localhost", the endpoint has a trusted certificate for it - accepted, verification on or off
+    sni = core.run_sharded([eng.harness, "codec"], eng.prelude, ["TLSSNI 1", "TLSSNI 0"], shards=2, timeout=300, env=NET_ENV)
+    for c, im in zip(["TLSSNI 1", "TLSSNI 0"], sni):
+        chk.case(c, True)
+        chk.validated += 1
+        if im.startswith("TLSSNI skipped"):
+            chk.count("skipped:no-sni-endpoint")
+            continue
+        chk.count("sni-selected-certificate")
+        if im != "TLSSNI connect=ok":
+            chk.violation("a client told to connect to a host name was refused by an endpoint that holds a trusted certificate for that name and selects it by SNI: " + short(im, 200),
+                          dict(case=c, impl=short(im)))
     # a plain-text peer whose FIRST message is something a TLS-identity server might be tempted to treat specially: an ordinary
     # request, capabilities exchanges announcing in-band security (Inband-Security-Id 0 / 1, RFC 3588 style), a watchdog, a
     # disconnect request - none may reach the handler or be answered in clear
